@@ -159,6 +159,18 @@ def run_main_scenarios(spec, scratch):
                     res.append((extra_name, rca, rcb, p.returncode if p else 3, (p.stdout if p else '')[-400:]))
                 failed = any(r[1] != 0 or r[2] != 0 or r[3] == 1 for r in res)
                 outs.append({'args': [sc], 'exit': 1 if failed else 0, 'stdout': '\n'.join(f'{r[0]}: inovesa exits {r[1]}/{r[2]}; {r[4].strip()}' for r in res)})
+            elif sc == 'tracking':
+                # C15: the tracked particles start where the tracking file puts them, on a grid whose two axes differ
+                tchk = build_harness('h5_tracks_check', scratch, hdf5=True)
+                tf = os.path.join(work, 'tracks.txt')
+                open(tf, 'w').write(''.join(f'{q_} {p_}\n' for q_, p_ in ((0.0, 0.0), (1.0, -0.5), (-2.0, 1.5), (0.25, 3.0), (-1.5, -2.5), (100.0, -100.0))))
+                res = []
+                for nm, extra in (('same_axes', []), ('shifted_energy_axis', ['--PhaseSpaceShiftY', '5']), ('shifted_position_axis', ['--PhaseSpaceShiftX', '-4'])):
+                    out, rc, so = run(['-T', '0.3', '-n', '1', '--tracking', tf] + extra, 'trk_' + nm)
+                    p = subprocess.run([tchk, out, tf], capture_output=True, text=True, timeout=120) if (rc == 0 and not isinstance(tchk, tuple)) else None
+                    res.append((nm, rc, p.returncode if p else 3, (p.stdout if p else so)[-400:]))
+                failed = any(r[1] != 0 or r[2] == 1 for r in res)
+                outs.append({'args': [sc], 'exit': 1 if failed else 0, 'stdout': '\n'.join(f'{r[0]}: inovesa exits {r[1]}; {r[3].strip()}' for r in res)})
             elif sc == 'options':
                 # C20: precedence command line > config file > default, legacy names, compatibility-only names, refusals
                 def cfgval(fn, key):
@@ -201,8 +213,11 @@ def run_main_scenarios(spec, scratch):
                 text.append(f'compatibility-only options in the config file: exits {rca}/{rcb}; {(pc.stdout if pc else "").strip()}')
                 # refusals: message, failure status (unknown option / malformed value), nothing simulated
                 for nm, args_, need_fail in (('unknown option', ['--nonsense', '1'], True), ('malformed value', ['-s', 'abc'], True), ('unknown option in the config file', ['-c', os.path.join(work, 'bad.cfg')], True),
+                                             ('malformed value in the config file', ['-c', os.path.join(work, 'bad2.cfg')], True), ('malformed value under a legacy name in the config file', ['-c', os.path.join(work, 'bad3.cfg')], True),
                                              ('missing config file', ['-c', os.path.join(work, 'does_not_exist.cfg')], False)):
                     open(os.path.join(work, 'bad.cfg'), 'w').write('NoSuchOption=1\n')
+                    open(os.path.join(work, 'bad2.cfg'), 'w').write('StepsPerTs=abc\n')
+                    open(os.path.join(work, 'bad3.cfg'), 'w').write('steps=12.5.1\n')
                     out, rc, so = run(['-T', '0.01'] + args_, 'opt_refuse')
                     created = os.path.exists(out)
                     ok = (not created) and len(so.strip()) > 0 and (rc != 0 if need_fail else True)
@@ -222,7 +237,18 @@ def run_main_scenarios(spec, scratch):
                     p = subprocess.run([cmpx, full, cont, '5e-5'], capture_output=True, text=True, timeout=120) if not isinstance(cmpx, tuple) else None
                     res.append((nm, (rc0, rc1, rc2), p.returncode if p else 3, (p.stdout if p else '')[-300:]))
                 failed = any(any(r[1]) or r[2] == 1 for r in res)
-                outs.append({'args': [sc], 'exit': 1 if failed else 0, 'stdout': '\n'.join(f'{r[0]}: inovesa exits {r[1]}; {r[3].strip()}' for r in res)})
+                text = [f'{r[0]}: inovesa exits {r[1]}; {r[3].strip()}' for r in res]
+                # the refusal half: a start file that cannot be used is named in a message and nothing is simulated
+                notfile = os.path.join(work, 'not_a_results_file.h5'); open(notfile, 'w').write('this is not HDF5\n')
+                adir = os.path.join(work, 'a_directory.h5'); os.makedirs(adir, exist_ok=True)
+                for nm, sf in (('missing start file', os.path.join(work, 'no_such_file.h5')), ('start file that is not HDF5', notfile), ('directory as start file', adir)):
+                    out, rc, so = run(['-s', '64', '-N', '100', '-T', '0.1', '-i', sf], 'rs_refuse')
+                    simulated = os.path.exists(out) or 'Starting the simulation' in so
+                    named = os.path.basename(sf) in so
+                    if simulated or not named:
+                        failed = True
+                    text.append(f'{nm}: exit {rc}, file named in a message: {named}, simulated anyway: {simulated}')
+                outs.append({'args': [sc], 'exit': 1 if failed else 0, 'stdout': '\n'.join(text)})
             elif sc == 'interrupt':
                 worst = 0
                 text = []
